@@ -72,11 +72,11 @@ fn not_in_with_null(q: &Query, db: &DbDef) -> bool {
     }
 }
 
-fn run_case(db_def: &DbDef, q: &Query, model: &mut model::Model, rep: &mut Report) {
+fn run_case(db_def: &DbDef, q: &Query, force_unq: bool, model: &mut model::Model, rep: &mut Report) {
     let req = format!("query {} {}", db_def.sx(), q.sx());
     let case_id = format!("{} {}", db_def.sx(), q.sx());
     // one case in four (when the meaning cannot change) is written with unqualified column names
-    let unq = q.unqualified_safe() && case_id.len() % 4 == 0;
+    let unq = q.unqualified_safe() && (force_unq || case_id.len() % 4 == 0);
     let sql = if unq { q.sql_unqualified(db_def) } else { q.sql(db_def) };
     rep.count(if unq { "names_unqualified" } else { "names_qualified" });
     let mut db = Db::new();
@@ -220,6 +220,12 @@ fn simple_tree(r: &mut Rng, t: &TableDef) -> E {
             (_, Lit::S(v)) if r.chance(4, 5) => Lit::S(v),
             (_, _) => Lit::S(r.pick(&["a", "ab", "b", ""]).to_string()),
         };
+        // a negative number is rendered `(-n)`, which the engine parses as a unary minus, not a
+        // literal, and then leaves the predicate-tree path: keep most literals non-negative
+        let lit = match lit {
+            Lit::I(v) if v < 0 && r.chance(4, 5) => Lit::I(-v),
+            other => other,
+        };
         match r.below(5) {
             0 | 1 => E::Bin(*r.pick(&cmp), Box::new(E::Col(col)), Box::new(E::Lit(lit))),
             2 | 3 => E::Bin(*r.pick(&cmp), Box::new(E::Lit(lit)), Box::new(E::Col(col))),
@@ -266,6 +272,7 @@ fn main() {
         }
         let g = QGen { db: &db_def, subqueries: true, force_from: None };
         let mut q = g.gen_query(&mut r);
+        let mut force_unq = false;
         if let (Some(t), true) = (large, r.chance(1, 2)) {
             // half of the large cases: a query over the large table whose WHERE is an AND/OR tree of
             // column-vs-literal comparisons in both operand orders and BETWEENs (the shape the
@@ -275,11 +282,16 @@ fn main() {
             core.where_ = Some(Pred::Ex(simple_tree(&mut r, &db_def.tables[t])));
             q = Query::Core(core);
             rep.count("large_table_simple_predicate_tree");
+            // the engine's scan-level predicate tree only recognises unqualified column references
+            force_unq = r.chance(3, 4);
+            if i < 200 {
+                rep.sample(serde_json::json!({"large_simple_tree_sql": if force_unq { q.sql_unqualified(&db_def) } else { q.sql(&db_def) }}));
+            }
         }
         if i < 5 {
             rep.sample(serde_json::json!({"sql": q.sql(&db_def), "tables": db_def.tables.iter().map(|t| t.rows.len()).collect::<Vec<_>>()}));
         }
-        run_case(&db_def, &q, &mut model, &mut rep);
+        run_case(&db_def, &q, force_unq, &mut model, &mut rep);
     }
     std::process::exit(rep.finish());
 }
